@@ -105,7 +105,7 @@ Section WifProofs.
     exists s, wif_encode key [v] c = Ok s /\ wif_decode s [v] = Ok (key, c).
   Proof.
     intros H Hk Hv. exists (check_encode (wif_payload v key c)). split; [apply wif_encode_layout; auto|].
-    unfold WifCodec.wif_decode. rewrite cd_enc.
+    unfold WifCodec.wif_decode. cbn [length Nat.eqb negb]. rewrite cd_enc.
     2:{ unfold wif_payload. constructor; auto. destruct c; auto. apply bytes_ok_app. split; auto.
         constructor; [rewrite c_wif_suffix; lia|constructor]. }
     cbn [bind Ok]. apply wif_decode_payload. exact H.
@@ -116,7 +116,8 @@ Section WifProofs.
   Theorem wif_decode_unambiguous s v key c : wif_decode s [v] = Ok (key, c) ->
     secp_priv_valid key = true /\ check_decode s = Ok (wif_payload v key c) /\ wif_encode key [v] c = Ok s.
   Proof.
-    unfold WifCodec.wif_decode. destruct (check_decode s) as [dec|] eqn:D; cbn [bind Ok]; [|discriminate].
+    unfold WifCodec.wif_decode. cbn [length Nat.eqb negb].
+    destruct (check_decode s) as [dec|] eqn:D; cbn [bind Ok]; [|discriminate].
     destruct dec as [|b0 k]; cbn [length Nat.eqb nth_error of_option bind Ok ord1 skipn]; [discriminate|].
     destruct (N.eqb_spec b0 v) as [->|]; cbn [negb]; [|discriminate].
     assert (Enc : forall p, check_decode s = Ok p -> p <> [] -> check_encode p = s).
@@ -138,10 +139,12 @@ Section WifProofs.
       f_equal. apply Enc; [exact D|discriminate].
   Qed.
 
-  (* nothing but the two documented classes escapes (the version argument being one byte) *)
-  Theorem wif_decode_errors s v e : wif_decode s [v] = Err e -> e = ValueError \/ e = LibError Base58ChecksumError.
+  (* nothing but the two documented classes escapes, whatever the version argument *)
+  Theorem wif_decode_errors_any s nv e : wif_decode s nv = Err e -> e = ValueError \/ e = LibError Base58ChecksumError.
   Proof.
-    unfold WifCodec.wif_decode. destruct (check_decode s) as [dec|e'] eqn:D; cbn [bind Ok].
+    unfold WifCodec.wif_decode.
+    destruct nv as [|v [|? ?]]; cbn [length Nat.eqb negb]; try solve [intros E; inversion E; auto].
+    destruct (check_decode s) as [dec|e'] eqn:D; cbn [bind Ok].
     2:{ intros E; inversion E; subst. eapply cd_err; eauto. }
     destruct dec as [|b0 k]; cbn [length Nat.eqb nth_error of_option bind Ok ord1 skipn].
     { intros E; inversion E; auto. }
@@ -154,13 +157,13 @@ Section WifProofs.
     - destruct (secp_priv_valid k); intros E; inversion E; auto.
   Qed.
 
-  (* the version argument must be a single byte: ord() of anything else is a TypeError, after the checksum
-     and emptiness tests *)
-  Theorem wif_decode_bad_version_arg s nv dec : check_decode s = Ok dec -> dec <> [] -> length nv <> 1%nat ->
-    wif_decode s nv = Err TypeError.
-  Proof.
-    intros D Hne L. unfold WifCodec.wif_decode. rewrite D. cbn [bind Ok].
-    destruct dec as [|b0 k]; [contradiction|]. cbn [length Nat.eqb nth_error of_option bind Ok].
-    destruct nv as [|a [|b t]]; cbn [ord1 bind]; try reflexivity. cbn in L. contradiction.
+  Theorem wif_decode_errors s v e : wif_decode s [v] = Err e -> e = ValueError \/ e = LibError Base58ChecksumError.
+  Proof. apply wif_decode_errors_any. Qed.
+
+  (* the version argument must be a single byte: anything else is rejected with ValueError before decoding *)
+  Theorem wif_decode_bad_version_arg s nv : length nv <> 1%nat -> wif_decode s nv = Err ValueError.
+  Proof using Type.
+    intros L. unfold WifCodec.wif_decode. destruct nv as [|a [|b t]]; cbn [length Nat.eqb negb]; try reflexivity.
+    exfalso; apply L; reflexivity.
   Qed.
 End WifProofs.
